@@ -507,9 +507,12 @@ func genAdversarial(t *rapid.T) lkSc {
 	s := lkSc{K: rapid.IntRange(1, 8).Draw(t, "k"), Alpha: rapid.IntRange(1, 5).Draw(t, "alpha")}
 	s.Beta = rapid.IntRange(1, s.K).Draw(t, "beta")
 	s.Key = rapid.IntRange(0, simPool-1).Draw(t, "key")
+	if verifsim.Chance(t, "otherKeyForm", 15) {
+		s.KeyKind = rapid.SampledFrom([]int{6, 7, 4}).Draw(t, "keyForm") // raw 32-byte key, short key, identity multihash
+	}
 	s.Self = rapid.IntRange(0, unknownBase-1).Draw(t, "self")
 	n := rapid.IntRange(1, 40).Draw(t, "nPeers")
-	s.Peers = genLkPeers(t, n, s.Self, sha256.Sum256([]byte(kpoolS().IDs[s.Key])), true)
+	s.Peers = genLkPeers(t, n, s.Self, s.keyKad(), true)
 	if rapid.IntRange(0, 5).Draw(t, "keyIsPeer") == 0 {
 		s.KeyPeer = 1 + rapid.IntRange(0, n-1).Draw(t, "keyPeer")
 	}
@@ -631,9 +634,12 @@ func genConsistent(t *rapid.T) netSc {
 	s.Alpha = rapid.IntRange(1, 5).Draw(t, "alpha")
 	s.Beta = rapid.IntRange(1, s.K).Draw(t, "beta")
 	s.Key = rapid.IntRange(0, simPool-1).Draw(t, "key")
+	if verifsim.Chance(t, "otherKeyForm", 20) {
+		s.KeyKind = rapid.SampledFrom([]int{6, 7, 4}).Draw(t, "keyForm") // raw 32-byte key, short key, identity multihash
+	}
 	s.Self = rapid.IntRange(0, unknownBase-1).Draw(t, "self")
 	n := rapid.IntRange(2, 120).Draw(t, "nPeers")
-	s.Peers = genLkPeers(t, n, s.Self, sha256.Sum256([]byte(kpoolS().IDs[s.Key])), false)
+	s.Peers = genLkPeers(t, n, s.Self, s.keyKad(), false)
 	ns.KnowAll = rapid.IntRange(0, 3).Draw(t, "knowAll") == 0
 	pp := ppool()
 	salt := rapid.IntRange(0, 1<<20).Draw(t, "subsetSalt")
